@@ -28,6 +28,8 @@ VALIDATION_CLAMP = [0.0, 0.001, 0.0005, 20.0, 25.0, -1.0, 0.5, 1.0, 1.5, float("
 def jobs_for(prop, tier):
     if prop == "C11":
         return ["set_phase"]
+    if prop == "C10":
+        return ["set_phase_range"]  # reachability of phases: set_phase cannot leave [0, 2^24)
     if prop == "C20":
         return ["clamps"]
     return []
@@ -170,6 +172,8 @@ def run(stage, jobs, log_path):
         try:
             if job == "set_phase":
                 results += _job_set_phase(stage, fns, consts, log_path)
+            elif job == "set_phase_range":
+                results += [r for r in _job_set_phase(stage, fns, consts, log_path, only_range=True)]
             elif job == "clamps":
                 results += _job_clamps(stage, fns, consts, log_path)
         except Unsupported as e:
@@ -178,7 +182,7 @@ def run(stage, jobs, log_path):
     return results
 
 
-def _job_set_phase(stage, fns, consts, log_path):
+def _job_set_phase(stage, fns, consts, log_path, only_range=False):
     out = []
     decls = "(declare-const p %s)\n(declare-const acc0 %s)\n(declare-const last0 %s)\n(declare-const flag0 Bool)\n" % (F32, BV32, BV32)
     acc, last, flag, used = _set_phase_term(fns, consts, "p")
@@ -215,6 +219,9 @@ def _job_set_phase(stage, fns, consts, log_path):
     out.append(q("mir_set_phase_in_range", "C11/set_phase/phase-stays-below-one-cycle",
                  "every finite f32 p: set_phase(p) leaves the counter < 2^24 (mask as set by new()), last = 0, no pending rollover flag",
                  "(and (bvult %s #x01000000) (= %s #x00000000) (not %s))" % (acc, last, flag)))
+    if only_range:
+        out[-1]["label"] = "C10/reachable-phases/set_phase-keeps-counter-below-2^24"
+        return out
     # p >= 0: |acc' - frac(p)*2^24| <= 4 counter steps (2^-22 cycle), computed exactly in f64
     frac = "(fp.sub RNE p (fp.roundToIntegral RTZ p))"
     e = "(fp.sub RNE ((_ to_fp_unsigned 11 53) RNE %s) (fp.mul RNE ((_ to_fp 11 53) RNE %s) ((_ to_fp 11 53) RNE 16777216.0)))" % (acc, frac)
